@@ -26,6 +26,8 @@ CONSTS.setdefault('C15', []).append('CodeAgreeRtt')
 for _p in ('C07', 'C08'):
     CONSTS.setdefault(_p, []).append('CodeAgreeIter')           # the agent's protected-attribute iterator
 CONSTS.setdefault('C13', []).append('CodeAgreeAttrs')           # message.rs StunAttributes::add / remove = Model.add_attr / remove
+for _p in ('C07', 'C08', 'C17'):
+    CONSTS.setdefault(_p, []).append('CodeAgreeIntegrity')      # integrity.rs TransportIntegrity = Model.discard_message / compute_mi / mem, del
 # raw.rs (header, RawMessage, attribute iterator, get_input_text) = Wire.hdr_valid / Tlv.dec_tlvs / InputText.input_text
 for _p in ('C03', 'C04', 'C09', 'C10', 'C18'):
     CONSTS.setdefault(_p, []).append('CodeAgreeRaw')
